@@ -7,6 +7,8 @@
     body_month_from text   -> as c_month_from (the regenerated vMonth.__new__ on a str)
     body_period_to atom atom -> as c_period_to   (unmodelled when two datetimes have the same fields and different UTC flags:
                                                  the translated code sees the flag only through `tzid_from_dt` of the fields)
+    body_ddl_from text     -> the regenerated vDDDLists.from_ical (wave 8): ok:<ddd>;<ddd>.. | err:<E>
+    body_ddl_to text ...   -> the regenerated vDDDLists.to_ical on elements whose own to_ical() texts are given
   The pieces are those of ICal/Model/DDDPieces.lean; `tzp.localize_utc` marks the datetime it is applied to.
 -/
 import ICal.Driver.Proto
@@ -81,6 +83,8 @@ def handleBodiesDDD (op : String) (args : List String) : Option String :=
       | some tz => some (okS (Bodies.periodToP tz x y))
       | none => some "unmodelled"
     | _, _ => none
+  | "body_ddl_from", [a] => asciiT a fun s => pyRes (fun l => ";".intercalate (l.map dddStr)) (Bodies.dddListsFromP markU s)
+  | "body_ddl_to", parts => some (okS (Bodies.dddListsToP (fun (s : Str) => .ok s) (parts.map decStr)))
   | "body_month_from", [a] => asciiT a fun s =>
       pyRes (fun (p : Int × Bool) => toString p.1 ++ "," ++ (if p.2 then "1" else "0"))
         (Gen.BodiesDec.vMonth_new (month := s) (params := ()) (new_int := fun i => (i, false)) (set_leap := fun m l => (m.1, l))
